@@ -18,6 +18,12 @@ EXTRA = {  # additional checks that are expected to see a change, besides the pr
     "C16-5b": ["C12", "C13"], "C17-5a": ["C05"], "C20-5b": ["C03"],
     "C01-6b": ["C07"], "C03-6a": ["C17"], "C03-6b": ["C07"], "C04-6b": ["C05"], "C05-6b": ["C07"], "C08-6b": ["C01"], "C09-6b": ["C06"], "C10-6a": ["C06"],
     "C11-6b": ["C02"], "C12-6b": ["C15"], "C14-6a": ["C12"], "C14-6b": ["C13"], "C16-6b": ["C12"], "C20-6b": ["C17"],
+    # round 7 (rarely used options, public surface of the reporter packages, package pairs): multi belongs to C19,
+    # Prometheus' Register* helpers to C17, the udp transports to C15, packet accounting to C12, key/derivation to C04
+    "C01-7b": ["C19"], "C02-7a": ["C07"], "C02-7b": ["C17"], "C03-7a": ["C12"], "C04-7a": ["C13", "C12"], "C04-7b": ["C17"], "C05-7a": ["C17"],
+    "C05-7b": ["C04", "C06"], "C07-7b": ["C08"], "C08-7b": ["C10", "C07"], "C10-7b": ["C17"], "C11-7a": ["C20"],
+    "C13-7a": ["C16"], "C14-7b": ["C16", "C13"], "C16-7a": ["C15", "C12"], "C16-7b": ["C12"], "C17-7b": ["C03", "C20", "C11"], "C20-7b": ["C03", "C17"],
+    "C09-7b": ["C20"], "C12-7b": ["C15"],
     "C03-2b": ["C09"], "C05-2b": ["C09"], "C10-2a": ["C11", "C09"], "C05-2a": ["C04"], "C06-2b": ["C04"], "C01-2b": ["C07"],
 }
 
